@@ -176,6 +176,7 @@ class Run:
         self.stores = {0: self.store}  # op["inst"] selects another instance on the same directory
         self.model = Model(self.cfg)
         self.om = {}  # content index -> ObjectMetadata last returned for it
+        self.decoy = None
         self.recs = []
         self.alpha = common.alpha(self.root, self.cfg)
         self.open_streams = []
@@ -313,7 +314,7 @@ class Run:
                     if sz == n:
                         sz = n + 1
                     size_ok = False
-                r.out = call(s.delete_if_invalid_object, om, cks, op.get("cks_algo") or "sha256", sz)
+                r.out = call(s.delete_if_invalid_object, common.om_for(s, om), cks, op.get("cks_algo") or "sha256", sz)
                 r.exp = m.dii(om.cid, size_ok, cks_ok)
         elif k == "smeta":
             arg, stream = self.data_arg(op["d"], op.get("kind", "str"), op.get("offset", 0), docs=True)
@@ -338,7 +339,24 @@ class Run:
             if "ok_or_err" in e:
                 e = {"ok_or_err": (hashlib.new(gen.canon(op["algo"]), e["ok_or_err"][0]).hexdigest(), e["ok_or_err"][1])}
             r.exp = {"ok": hashlib.new(gen.canon(op["algo"]), e["ok"]).hexdigest()} if "ok" in e else e
+        elif k == "decoy":
+            # ANOTHER store (own directory, a different algorithm) in the same process handles the same pid:
+            # nothing of it may leak into this store (process-wide caches keyed by identifier only)
+            if self.decoy is None:
+                algos = list(common.STORE_ALGOS)
+                dcfg = Cfg(algos[(algos.index(self.cfg.algo) + 1 + op.get("n", 0)) % len(algos)], 2, 3)
+                if dcfg.algo == self.cfg.algo:
+                    dcfg = Cfg(algos[(algos.index(self.cfg.algo) + 1) % len(algos)], 2, 3)
+                self.decoy = common.make_store(os.path.join(self.work, "decoy"), dcfg)
+            call(self.decoy.store_object, op["pid"], self.cpaths[op.get("c", 0)])
+            if op.get("fmt", "-") != "-":
+                call(self.decoy.store_metadata, op["pid"], self.cpaths[op.get("c", 0)], *([op["fmt"]] if op["fmt"] else []))
+            call(self.decoy.retrieve_object, op["pid"])
+            r.skipped = True
+            r.out, r.exp = ("ok", None), {"ok": None}
         elif k == "reopen":
+            if op.get("cold"):
+                common.cold_module()
             r.out = call(self.factory)
             if is_ok(r.out):
                 self.stores[inst] = r.out[1]
